@@ -308,6 +308,7 @@ def identity_padding_on_the_left(repo, module_names):
 # ---------------------------------------------------------------------------------------------------------- cache decorators
 _CACHE_DECOS = {"lru_cache", "cache", "cached_property"}
 _ONE_SHOT_RESULTS = {"reversed", "map", "filter", "iter", "zip", "chain", "islice", "enumerate"}
+_MUTABLE_RESULTS = {"Matrix", "MutableDenseMatrix", "array", "asarray", "zeros", "ones", "eye", "empty", "full", "arange", "list", "dict", "set", "Counter", "defaultdict", "OrderedDict", "deque", "bytearray", "csc_matrix", "csr_matrix", "coo_matrix", "identity", "kron", "copy", "deepcopy"}
 
 
 def _deco_name(d: ast.AST) -> str:
@@ -372,6 +373,11 @@ def unsound_caches(repo, module_names):
         funcs = list(mod.functions.values())
         for fi in funcs:
             decos = [_deco_name(d) for d in fi.node.decorator_list]
+            # a module-level alias of a functools cache: `_constant = lru_cache(maxsize=None)`, `memo = functools.cache`
+            for k_, dn in enumerate(list(decos)):
+                av = mod.assigns.get(dn) if hasattr(mod, "assigns") else None
+                if av is not None and _deco_name(av) in _CACHE_DECOS:
+                    decos[k_] = _deco_name(av)
             hit = [d for d in decos if d in _CACHE_DECOS]
             if not hit:
                 continue
@@ -393,6 +399,9 @@ def unsound_caches(repo, module_names):
             for r in [n.value for n in body_walk(fi.node) if isinstance(n, ast.Return) and n.value is not None]:
                 if isinstance(r, ast.GeneratorExp) or (isinstance(r, ast.Call) and (dotted(r.func) or "").split(".")[-1] in _ONE_SHOT_RESULTS):
                     one_shot = True
+            fresh_mutable = [r for r in [n.value for n in body_walk(fi.node) if isinstance(n, ast.Return) and n.value is not None] if isinstance(r, (ast.List, ast.Dict, ast.Set, ast.ListComp, ast.DictComp, ast.SetComp)) or (isinstance(r, ast.Call) and (dotted(r.func) or "").split(".")[-1] in _MUTABLE_RESULTS)]
+            if fresh_mutable:
+                out.append((fi, deco, f"the remembered result is a mutable object built once (`{short(fresh_mutable[0], 60)}`): every caller is handed the same object, so a caller that edits what it received (or a later in-place operation on it) changes what all later calls return"))
             if one_shot:
                 out.append((fi, deco, "the remembered result is a one-shot iterator: the first caller consumes it and every later call with the same arguments receives it exhausted"))
     return out, seen
